@@ -49,6 +49,9 @@ enum Tok {
 struct St {
     r: bool,
     w: bool,
+    /// the last permission command on t1 for this user was an acknowledged REVOKE READ / WRITE
+    rrev: bool,
+    wrev: bool,
     active: bool,
     tok: Tok,
 }
@@ -56,10 +59,22 @@ struct St {
 fn step(s: St, a: Act) -> St {
     let mut n = s;
     match a {
-        Act::GrantR => n.r = true,
-        Act::GrantW => n.w = true,
-        Act::RevokeR => n.r = false,
-        Act::RevokeW => n.w = false,
+        Act::GrantR => {
+            n.r = true;
+            n.rrev = false;
+        }
+        Act::GrantW => {
+            n.w = true;
+            n.wrev = false;
+        }
+        Act::RevokeR => {
+            n.r = false;
+            n.rrev = true;
+        }
+        Act::RevokeW => {
+            n.w = false;
+            n.wrev = true;
+        }
         Act::RevokeKey => {
             n.active = false;
             if n.tok == Tok::Live {
@@ -170,7 +185,7 @@ pub fn check(tier: &str) -> i32 {
     ];
     let acts = [Act::GrantR, Act::GrantW, Act::RevokeR, Act::RevokeW, Act::RevokeKey, Act::Auth, Act::Expire];
     // BFS over the reference state; every newly reached state is realised by replaying its path
-    let init = St { r: false, w: false, active: true, tok: Tok::None };
+    let init = St { r: false, w: false, rrev: false, wrev: false, active: true, tok: Tok::None };
     let mut paths: Vec<(St, Vec<Act>)> = Vec::new();
     let mut seen: BTreeSet<St> = BTreeSet::new();
     let mut fr: VecDeque<(St, Vec<Act>)> = VecDeque::new();
@@ -313,6 +328,23 @@ pub fn check(tier: &str) -> i32 {
                 if stp.blocked || !stp.note.starts_with("user=") && stp.replies.is_empty() {
                     out.push((format!("no answer: {kind}"), format!("{f:?} in state {st:?}")));
                     continue;
+                }
+                // second direction, for the clause 'revoking a permission takes effect for the next
+                // request': after an acknowledged REVOKE of the right a command needs on t1, a
+                // non-admin user's command is not executed, whatever role the user has
+                let revoked = match need {
+                    Need::Read1 => st.rrev,
+                    Need::Write1 => st.wrev,
+                    _ => false,
+                };
+                if executed && authenticated && permitted && revoked && role != "admin" {
+                    // the listed pristine defect needs the complementary grant to be in place
+                    let variant = match need {
+                        Need::Read1 if st.w => " while holding a WRITE grant on the type",
+                        Need::Write1 if st.r => " while holding a READ grant on the type",
+                        _ => "",
+                    };
+                    out.push((format!("{kind} executed after the needed permission was revoked (user with a granting role){variant}"), format!("user {u:?} role {role:?} state {st:?} path {path:?}: {kind} via {f:?} was executed although the last permission command was an acknowledged REVOKE")));
                 }
                 if executed && !(authenticated && permitted) {
                     let why = if !authenticated { format!("without valid authentication ({f:?})") } else { format!("without the required permission ({need:?})") };
